@@ -66,11 +66,13 @@ func (l *c20Loader) Get(p string) (io.Reader, error) {
 }
 
 type c20In struct {
-	spelled string // how the name is written in the call ("/a" or the un-normalised "a")
-	kind    string // fromcache clean cleanall setdebug setcontent setfail use
-	set     int
-	name    string
-	arg     int // version (setcontent: negative = broken), bool as 0/1
+	spelled  string   // how the name is written in the call ("/a" or the un-normalised "a")
+	kind     string   // fromcache clean cleanmulti cleanall setdebug setcontent setfail use
+	rawNames []string // cleanmulti: the names as passed to CleanCache (both spellings)
+	names    []string // cleanmulti: CleanCache(names...) - every listed name is dropped, whether the others are cached or not
+	set      int
+	name     string
+	arg      int // version (setcontent: negative = broken), bool as 0/1
 }
 
 func (in c20In) spell() string {
@@ -107,6 +109,11 @@ func c20Model() porcupine.Model {
 				if in.kind == "fromcache" || in.kind == "clean" {
 					keys[fmt.Sprintf("%d|%s", in.set, in.name)] = true
 				}
+				if in.kind == "cleanmulti" {
+					for _, nm := range in.names {
+						keys[fmt.Sprintf("%d|%s", in.set, nm)] = true
+					}
+				}
 			}
 			var parts [][]porcupine.Operation
 			for key := range keys {
@@ -125,6 +132,15 @@ func c20Model() porcupine.Model {
 						if in.set == setN {
 							part = append(part, op)
 						}
+					case "cleanmulti":
+						if in.set == setN {
+							for _, nm := range in.names {
+								if nm == name {
+									part = append(part, op)
+									break
+								}
+							}
+						}
 					case "setcontent", "setfail":
 						if in.name == name {
 							part = append(part, op)
@@ -140,7 +156,7 @@ func c20Model() porcupine.Model {
 			s := st.(c20State)
 			in := input.(c20In)
 			switch in.kind {
-			case "clean", "cleanall":
+			case "clean", "cleanall", "cleanmulti":
 				s.cachedID = -1
 				return true, s
 			case "setdebug":
@@ -263,6 +279,8 @@ func (w *c20World) do(client int, in c20In) (c20Out, string) {
 		w.sets[in.set].CleanCache(in.spell())
 	case "cleanall":
 		w.sets[in.set].CleanCache()
+	case "cleanmulti":
+		w.sets[in.set].CleanCache(in.rawNames...)
 	case "setdebug":
 		w.sets[in.set].Debug = in.arg == 1
 	case "setcontent":
@@ -390,6 +408,20 @@ func c20RandOp(r *Rng, nsets int, names []string, concurrent bool) c20In {
 	case k < 15:
 		return c20In{kind: "clean", set: set, name: name, spelled: spelled}
 	case k < 16:
+		if r.Bool() {
+			// several names in one call, in any order, known and unknown ones, spelled both ways
+			pool := []string{"/a", "/b", "/c", "a", "b", "c", "/never-loaded", "/a"}
+			var ns []string
+			for i := 2 + r.Intn(3); i > 0; i-- {
+				ns = append(ns, pool[r.Intn(len(pool))])
+			}
+			in := c20In{kind: "cleanmulti", set: set, rawNames: ns}
+			for _, n := range ns {
+				in.names = append(in.names, "/"+strings.TrimPrefix(n, "/"))
+			}
+			in.spelled = strings.Join(ns, ",")
+			return in
+		}
 		return c20In{kind: "cleanall", set: set}
 	case k < 17:
 		return c20In{kind: "use", set: set, name: name, spelled: spelled, arg: r.Intn(6)}
